@@ -59,6 +59,42 @@ def absDiffLe (a b t : Int × Int) : Bool :=
   let sc (x : Int × Int) : Int := x.1 * (2 : Int) ^ (x.2 - e).toNat
   (sc a - sc b).natAbs ≤ (sc t).natAbs
 
+/-- round-to-nearest-even of the rational `num/den` (`den > 0`) to an f32 bit pattern (normal range;
+subnormals / overflow are not needed for the scale factors this is used for) -/
+def roundF32 (num den : Int) : Nat :=
+  if num == 0 || den ≤ 0 then 0
+  else
+    let sign : Nat := if num < 0 then 2147483648 else 0
+    let n := num.natAbs
+    let d := den.natAbs
+    -- exponent e with 2^23 ≤ n / (d·2^e) < 2^24
+    let e0 : Int := (n.log2 : Int) - (d.log2 : Int) - 23
+    let quo (e : Int) : Nat := if e ≥ 0 then n / (d * 2 ^ e.toNat) else (n * 2 ^ (-e).toNat) / d
+    let e : Int := if quo e0 ≥ 16777216 then e0 + 1 else if quo e0 < 8388608 then e0 - 1 else e0
+    -- mantissa and remainder (scaled so that the division is exact in ℕ)
+    let nn : Nat := if e ≥ 0 then n else n * 2 ^ (-e).toNat
+    let dd : Nat := if e ≥ 0 then d * 2 ^ e.toNat else d
+    let m := nn / dd
+    let r := nn % dd
+    let m := if 2 * r > dd || (2 * r == dd && m % 2 == 1) then m + 1 else m
+    let (m, e) := if m ≥ 16777216 then (m / 2, e + 1) else (m, e)
+    sign + ((e + 150).toNat) * 8388608 + (m - 8388608)
+
+/-- f32 multiplication / reciprocal on bit patterns (finite, normal operands) -/
+def mulF32 (a b : Nat) : Nat :=
+  match f32Rat a, f32Rat b with
+  | some (ma, ea), some (mb, eb) =>
+    let e := ea + eb
+    if e ≥ 0 then roundF32 (ma * mb * (2 : Int) ^ e.toNat) 1 else roundF32 (ma * mb) ((2 : Int) ^ (-e).toNat)
+  | _, _ => 0
+
+def recipF32 (a : Nat) : Nat :=
+  match f32Rat a with
+  | some (m, e) =>
+    let s : Int := if m < 0 then -1 else 1
+    if e ≥ 0 then roundF32 s (m.natAbs * (2 : Int) ^ e.toNat) else roundF32 (s * (2 : Int) ^ (-e).toNat) m.natAbs
+  | none => 0
+
 /-- 1e-4 as f32 -/
 def tolBits : Nat := 953267991
 
